@@ -1,12 +1,14 @@
 #!/bin/bash
-# seedtest.sh <patch.diff> <check-id>... : apply a seeded change to /repo, run the checks, undo it.
+# seedtest.sh <patch.diff> <check-id>... : apply a seeded change to a scratch worktree of /repo, run the checks against it, remove it.
 patch=$1; shift
-cd /repo || exit 3
-if ! git apply --check "$patch" 2>/dev/null; then
-  if ! git apply --3way --check "$patch" 2>/dev/null; then echo "PATCH DOES NOT APPLY: $patch"; exit 3; fi
+wt=$(mktemp -d /tmp/seedwt.XXXXXX)
+git -C /repo worktree add --detach "$wt" HEAD >/dev/null 2>&1 || exit 3
+cd "$wt"
+if ! git apply "$patch" 2>/dev/null; then
+  if ! git apply --3way "$patch" 2>/dev/null; then echo "PATCH DOES NOT APPLY: $patch"; cd /; git -C /repo worktree remove --force "$wt"; exit 3; fi
 fi
-git apply "$patch" || git apply --3way "$patch"
+ev=$(mktemp -d /tmp/seedev.XXXXXX)
 for id in "$@"; do
-  (cd /verif && timeout 3000 ./check $id --tier ${TIER:-quick} 2>&1 | cut -c1-300 | grep -E "^(check|VIOLATION|INCONCLUSIVE|KNOWN|  violated)" | head -8; echo "rc[$id]=${PIPESTATUS[0]}")
+  (cd /verif && VERIF_REPO=$wt VERIF_EVIDENCE_DIR=$ev timeout ${SEED_TIMEOUT:-3000} ./check $id --tier ${TIER:-quick} 2>&1 | cut -c1-300 | grep -E "^(check|VIOLATION|INCONCLUSIVE|KNOWN|  violated)" | head -6; echo "rc[$id]=${PIPESTATUS[0]}")
 done
-cd /repo && git checkout -- . && git status --short | grep -v validate
+cd /; git -C /repo worktree remove --force "$wt"; rm -rf "$ev"
